@@ -273,3 +273,52 @@ Proof.
   cbn [kids par set_kids]. split; [rewrite upd_same; apply py_sort_perm|].
   split; [intros q Hq; apply upd_other; exact Hq|reflexivity].
 Qed.
+
+(* The checks are pure guards, stated the other way round: wherever the run with the checks OFF does
+   not leave the modelled domain (i.e. no type/loop check would have fired), the run with the checks
+   ON computes exactly the same state and outcome - hook failures and their rollbacks included. *)
+Lemma set_parent_guards_pure cfg ft s c a :
+  snd (set_parent (with_assert cfg false) ft s c a) <> Err Unmodelled ->
+  set_parent (with_assert cfg true) ft s c a = set_parent (with_assert cfg false) ft s c a.
+Proof.
+  unfold set_parent. cbn [assertions is_node with_assert]. destruct a; cbn [snd].
+  - destruct (parent_loop s c (Some i)); cbn [snd]; [intros H; exfalso; apply H; reflexivity|reflexivity].
+  - reflexivity.
+  - intros H. exfalso. apply H. reflexivity.
+Qed.
+
+Lemma set_children_guards_pure cfg ft s p cont args :
+  snd (set_children (with_assert cfg false) ft s p cont args) <> Err Unmodelled ->
+  set_children (with_assert cfg true) ft s p cont args = set_children (with_assert cfg false) ft s p cont args.
+Proof.
+  unfold set_children. cbn [assertions is_node with_assert].
+  destruct (match cont with COther => Some TypeError | _ => check_children s p args [] end); cbn [snd];
+    [intros H; exfalso; apply H; reflexivity|reflexivity].
+Qed.
+
+Lemma extend_guards_pure cfg p : forall cs fts s,
+  snd (extend_loop (with_assert cfg false) s p cs fts) <> Err Unmodelled ->
+  extend_loop (with_assert cfg true) s p cs fts = extend_loop (with_assert cfg false) s p cs fts.
+Proof.
+  induction cs as [|c cs IH]; intros fts s H; cbn [extend_loop] in *; [reflexivity|].
+  destruct (set_parent (with_assert cfg false) (hd NoFault fts) s c (ANode p)) as [s1 o1] eqn:E.
+  assert (Ho : o1 <> Err Unmodelled).
+  { destruct o1 as [|e]; [discriminate|]. cbn [snd] in H. exact H. }
+  rewrite set_parent_guards_pure by (rewrite E; exact Ho). rewrite E.
+  destruct o1; [apply IH; exact H|reflexivity].
+Qed.
+
+Theorem step_guards_pure cfg s o :
+  snd (step (with_assert cfg false) s o) <> Err Unmodelled ->
+  step (with_assert cfg true) s o = step (with_assert cfg false) s o.
+Proof.
+  unfold step. destruct (op_in_range s o); cbn [negb]; [|reflexivity].
+  destruct o; cbn [is_node with_assert]; intros H;
+    first [ apply set_parent_guards_pure; exact H
+          | apply set_children_guards_pure; exact H
+          | apply extend_guards_pure; exact H
+          | reflexivity
+          | (destruct (is_node cfg); cbn [negb] in *; [|reflexivity];
+             destruct (filter (fun k => str_eqb (name s k) nm) (kids s p)) as [|c [|c' l]]; try reflexivity;
+             apply set_parent_guards_pure; exact H) ].
+Qed.
